@@ -12,26 +12,29 @@ from pycaption import SRTWriter, WebVTTWriter, MicroDVDWriter, SAMIWriter, SCCWr
 from pycaption.dfxp import DFXPWriter
 from pycaption.dfxp.extras import LegacyDFXPWriter, SinglePositioningDFXPWriter
 from harness.csbuild import build_set, snap_set, StableHash
+from pycaption.exceptions import RelativizationError
 
 
 import pycaption.dfxp.base as _db
 import pycaption.dfxp.extras as _dx
-from harness.fakesoup import dfxp_soup
+from harness.fakesoup import dfxp_soup, sami_soup
+import pycaption.sami as _sm
 
 
 class _FakeBS:
-    """DFXP writers assemble their document on the contract stub of bs4 (harness/fakesoup.py): lxml's tree
-    building does not terminate under CrossHair's tracing, and the question here is about pycaption's own
-    state and copies, not bs4's."""
+    """The DFXP and SAMI writers assemble their document on the contract stub of bs4 (harness/fakesoup.py): bs4 /
+    lxml do not run under CrossHair's tracing (non-termination, TypeError in bs4's typing protocols), and the
+    question here is about pycaption's own state and copies, not bs4's."""
 
     def __enter__(self):
-        self.old = (_db.BeautifulSoup, _dx.BeautifulSoup)
+        self.old = (_db.BeautifulSoup, _dx.BeautifulSoup, _sm.BeautifulSoup)
         _db.BeautifulSoup = _dx.BeautifulSoup = lambda markup, features=None: dfxp_soup()
+        _sm.BeautifulSoup = lambda markup, features=None: sami_soup()
         self.sh = StableHash()
         self.sh.__enter__()
 
     def __exit__(self, *a):
-        _db.BeautifulSoup, _dx.BeautifulSoup = self.old
+        _db.BeautifulSoup, _dx.BeautifulSoup, _sm.BeautifulSoup = self.old
         self.sh.__exit__()
 
 
@@ -61,8 +64,8 @@ def _unchanged(w, dims, cs, rel=True, fit=True):
     with _FakeBS():
         try:
             _mk(w, dims, rel, fit).write(cs)
-        except Exception:
-            pass
+        except (RelativizationError, ValueError):
+            pass  # documented refusals (absolute units without a video size / fit_to_screen on absolute units)
     return "" if snap_set(cs) == before else "input caption set changed by write()"
 
 
@@ -72,25 +75,34 @@ def _deterministic(w, dims, cs, other):
 
 
 def _deterministic2(w, dims, cs, other):
-    wr = _mk(w, dims)
-    try:
-        a = wr.write(cs)
-    except Exception:
-        return ""  # refusal (e.g. RelativizationError) is not an output
-    b = wr.write(cs)
-    if a != b:
-        return "second write on the same writer differs"
-    c = _mk(w, dims).write(cs)
-    if a != c:
-        return "fresh writer differs"
+    # first thing in the process/path: a writer writes ANOTHER set, then this one
     w2 = _mk(w, dims)
     try:
         w2.write(other)
-    except Exception:
+    except (RelativizationError, ValueError):
         pass
-    d = w2.write(cs)
+    try:
+        d = w2.write(cs)
+    except (RelativizationError, ValueError):
+        return ""  # refusal is not an output
+    wr = _mk(w, dims)
+    a = wr.write(cs)
     if a != d:
-        return "output depends on what the writer wrote before"
+        return "output depends on what was written before"
+    if wr.write(cs) != a:
+        return "second write on the same writer differs"
+    if _mk(w, dims).write(cs) != a:
+        return "fresh writer differs"
+    if w == 1:
+        # semantic anchor for state shared by all writer objects: italic tags appear exactly where the set
+        # being written defines italics (node spans; the document style s1 of this set has none)
+        spans = 0
+        for c in cs.get_captions("en"):
+            for n in c.nodes:
+                if n.type_ == 2 and n.start and n.content.get("italics"):
+                    spans += 1
+        if a.count("<i>") != spans:
+            return "italic tags do not correspond to the styles of the set being written"
     return ""
 
 
